@@ -61,7 +61,7 @@ def programs(tier, seed):
     full = accesses(3, OFFS, SIZES, [1, -1])
     if tier == "quick":
         full = [a for a in full if a[4] == 1] * 3 + [a for a in full if a[4] == -1]
-    nrich = 250 if tier == "quick" else 12000
+    nrich = 250 if tier == "quick" else 2500
     for _ in range(nrich):
         n = rnd.choice([2, 3, 3, 4, 4, 5])
         p = tuple(rnd.choice(full) for _ in range(n))
@@ -85,7 +85,7 @@ def programs(tier, seed):
     same = accesses(1, [0, 1, 2, 3, -1, 4], SIZES, [1, -1])
     if tier == "quick":
         same = [a for a in same if a[4] == 1] * 3 + [a for a in same if a[4] == -1]
-    for _ in range(150 if tier == "quick" else 4000):
+    for _ in range(150 if tier == "quick" else 800):
         n = rnd.choice([2, 3, 4])
         p = tuple(rnd.choice(same) for _ in range(n)) + (("ld", "p", rnd.choice([0, 1, -1, 2]), rnd.choice(SIZES), rnd.choice([1, -1])),)
         progs.append(p)
@@ -377,7 +377,7 @@ def coverage(agg, tier):
         "top_results_admitted": agg.get("top_results", 0),
         "solver_s": round(agg.get("solver_s", 0.0), 1),
         "rule": "program = (load/store sequence, noaliasing, memtrace); obligation = 'exists pointers, registers, initial memory: loaded register (mods replayed) or final memory byte at a quantified address differs from the z3-Array execution'",
-        "bounds": {"programs": "exhaustive core: 2 pointers x offsets {0,1,-1} x sizes {8,32} LE, length 2..3 with a load and a store and both pointers (quick: 300 seed-selected); + (quick 250 | thorough 12000) seeded programs of length 2..6 over 3 pointers, offsets {0,+-1,2,+-4,8}, sizes 8..64, both endiannesses; + (150 | 4000) same-pointer overlap programs; x 4 (noaliasing, memtrace) settings",
+        "bounds": {"programs": "exhaustive core: 2 pointers x offsets {0,1,-1} x sizes {8,32} LE, length 2..3 with a load and a store and both pointers (quick: 300 seed-selected); + (quick 250 | thorough 2500) seeded programs of length 2..6 over 3 pointers, offsets {0,+-1,2,+-4,8}, sizes 8..64, both endiannesses; + (150 | 800) same-pointer overlap programs; x 4 (noaliasing, memtrace) settings",
                    "outside": "vector-valued pointers, segment registers, MMIO ext stubs, programs longer than 6"},
         "exhaustive": False,
     }
